@@ -236,18 +236,23 @@ pub fn check_link(case: &LinkCase) -> CaseResult {
         }
         // symlink again over the existing link with another target: must not silently keep/replace
         let other = ab("/zz-other");
-        match v.symlink(&l, &other) {
-            Ok(_) => {
-                if v.readlink_abs(&l).ok().and_then(|p| p.to_str().map(|s| s.to_string())) != Some(other.clone()) {
-                    return Err(fail("symlink-over-existing|ok-but-old-target-kept", String::new()));
-                }
-                return Err(fail("symlink-over-existing|replaced-silently", "returned Ok".into()));
-            },
-            Err(_) => {
-                if v.readlink_abs(&l).ok().and_then(|p| p.to_str().map(|s| s.to_string())) != Some(t.clone()) {
-                    return Err(fail("symlink-over-existing|err-but-target-changed", String::new()));
-                }
-            },
+        // ... however the occupied link path is spelled (the occupancy test must look at the resolved path)
+        let l_detour = format!("{}/zz/../{}", parent(&l).trim_end_matches('/'), base(&l));
+        let l_dotted = format!("{}/./{}/", parent(&l).trim_end_matches('/'), base(&l));
+        for lsp in [l.clone(), l_detour, l_dotted] {
+            match v.symlink(&lsp, &other) {
+                Ok(_) => {
+                    if v.readlink_abs(&l).ok().and_then(|p| p.to_str().map(|s| s.to_string())) != Some(other.clone()) {
+                        return Err(fail("symlink-over-existing|ok-but-old-target-kept", format!("symlink({:?}, {:?}) returned Ok", lsp, other)));
+                    }
+                    return Err(fail("symlink-over-existing|replaced-silently", format!("symlink({:?}, {:?}) returned Ok", lsp, other)));
+                },
+                Err(_) => {
+                    if v.readlink_abs(&l).ok().and_then(|p| p.to_str().map(|s| s.to_string())) != Some(t.clone()) {
+                        return Err(fail("symlink-over-existing|err-but-target-changed", String::new()));
+                    }
+                },
+            }
         }
         // chmod / chown without follow act on the link, never on the target
         if matches!(case.target_kind.as_str(), "dir" | "file") {
@@ -352,7 +357,7 @@ pub fn check_link(case: &LinkCase) -> CaseResult {
 }
 
 pub fn run(c: &Ctx) {
-    c.set_rule("exhaustive: every (link position, target position) pair over paths of depth <=4 with the names {a,ab} (quick) / {a,ab,b} (thorough) — one name is a string prefix of another — (target additionally the root and the link's own directory), every feasible target kind {dir, file, missing, link->dir, link->file}, four spellings of the target (absolute, relative to the link's directory, both also unclean with './', '//' and trailing '/.'), on Memfs; a seeded 1/3 (quick) / 1/6 (thorough) of them on a tmpfs Stdfs sandbox with std::fs::read_link as independent observer. After symlink: readlink_abs == abs(target); readlink relative and clean(dir(link)/readlink) == target; is_symlink && !is_file && !is_dir; is_symlink_dir/file == kind of target at creation; readlink on non-links fails; entry accessors; follow(true) swaps once (idempotent), follow(false) never; symlink over the existing link with another target must fail and keep the target; chmod/chown without follow on the link, and recursive chmod/chown without follow of the directory holding the link, leave an outside target's mode/owner alone; remove removes the link only. Non-trivial = link and target in different directories, or a relative spelling with at least one '..'; distinct by case.");
+    c.set_rule("exhaustive: every (link position, target position) pair over paths of depth <=4 with the names {a,ab} (quick) / {a,ab,b} (thorough) — one name is a string prefix of another — (target additionally the root and the link's own directory), every feasible target kind {dir, file, missing, link->dir, link->file}, four spellings of the target (absolute, relative to the link's directory, both also unclean with './', '//' and trailing '/.'), on Memfs; a seeded 1/3 (quick) / 1/6 (thorough) of them on a tmpfs Stdfs sandbox with std::fs::read_link as independent observer. After symlink: readlink_abs == abs(target); readlink relative and clean(dir(link)/readlink) == target; is_symlink && !is_file && !is_dir; is_symlink_dir/file == kind of target at creation; readlink on non-links fails; entry accessors; follow(true) swaps once (idempotent), follow(false) never; symlink over the existing link with another target must fail and keep the target, whether the occupied path is spelled clean, with a 'zz/..' detour or with './' and a trailing separator; chmod/chown without follow on the link, and recursive chmod/chown without follow of the directory holding the link, leave an outside target's mode/owner alone; remove removes the link only. Non-trivial = link and target in different directories, or a relative spelling with at least one '..'; distinct by case.");
     let names: &[&str] = c.tier.pick(&["a", "ab"][..], &["a", "ab", "b"][..]);
     let pos = positions(4, names);
     let mut cases: Vec<LinkCase> = vec![];
